@@ -17,3 +17,7 @@ class TagField(models.CharField):
 
 class CodeField(models.CharField):
     pass
+
+
+class NoteField(models.CharField):
+    pass
